@@ -49,11 +49,16 @@ structure ThreadMon where
   maxLiveNodes : Nat := 0
   deriving Repr
 
+/-- category of a message = the text before the first colon -/
+def msgCat (m : String) : String := (m.splitOn ":").headD ""
+
+/-- the first violation of every category is kept (joined by ` || `) -/
 def ThreadMon.flag (s : ThreadMon) (msg : String) : ThreadMon :=
+  let full := msg ++ (if s.nonFresh then " [history contains a non-fresh EnterEpoch store]" else "")
+                  ++ (if s.nested then " [a thread held two guards at once]" else "")
   match s.bad with
-  | some _ => s
-  | none => { s with bad := some (msg ++ (if s.nonFresh then " [history contains a non-fresh EnterEpoch store]" else "")
-                                     ++ (if s.nested then " [a thread held two guards at once]" else "")) }
+  | some b => if (b.splitOn " || ").any (fun m => msgCat m == msgCat msg) then s else { s with bad := some (b ++ " || " ++ full) }
+  | none => { s with bad := some full }
 
 def parseList (s : String) : Option (List Nat) :=
   if s.startsWith "[" && s.endsWith "]" then
